@@ -7,9 +7,8 @@ prev=[]
 for f in sorted(glob.glob('/verif/seeded/%s-*/meta.json'%pid)):
     try: prev.append("- "+json.load(open(f))['summary'][:260])
     except Exception: pass
-base=open('/tmp/mut/prompt2.py').read()
 import subprocess
-txt=subprocess.run(['python3','/tmp/mut/prompt2.py',pid,n],capture_output=True,text=True).stdout
+txt=subprocess.run(['python3','/verif/tools/prompt2.py',pid,n],capture_output=True,text=True).stdout
 txt=txt.replace("/tmp/mut/%sr2"%pid,"/tmp/mut/%sr3"%pid).replace("/tmp/mut/out2/","/tmp/mut/out3/")
 txt=txt.replace("This is a SECOND ROUND.","This is a THIRD ROUND. The following changes were already produced for this property in earlier rounds -- do NOT repeat them or close variants of them:\n"+"\n".join(prev)+"\n\nGeneral remark on earlier rounds:")
 print(txt)
